@@ -11,7 +11,7 @@ Cases(z) ==
   {[a1 |-> a1, d1 |-> d1, a2 |-> a2, d2 |-> d2, cues |-> cs] :
      a1 \in {x \in 0..gG : x % gPS = gP}, a2 \in 0..gG, d1 \in 0..gG, d2 \in 0..gG,
      cs \in {<<>>} \cup {<<p>> : p \in {q \in (0..gG) \X (0..gG) : q[1] <= q[2]}} \cup {<<<<0, 1>>, <<1, gG>>>>, <<<<gG, gG>>, <<0, 0>>>>}}
-ASSUME LET cs == {c \in Cases(0) : c.a1 # c.a2 /\ c.d1 # c.d2} IN
+ASSUME LET cs == {c \in Cases(0) : c.a1 # c.a2} IN
        /\ ndJsonSerialize(IOEnv.GEN_OUT, SetToSeq(cs))
        /\ PrintT(<<"GENERATED", "linear", Cardinality(cs)>>)
 VARIABLE x
